@@ -153,6 +153,12 @@ SECTIONS = [
    ('C15_show_utc_total', 'show_utc_total', ''),
    ('C15_show_dtz_total', 'show_dtz_total', ''),
  ]),
+ ("Display / Debug of the error types, Debug of IsoWeek and of WeekdaySet (ops c15.errtext, c15.isoweek.dbg, c15.wdset.dbg; Proofs/C15Errors.v).  The impls write a literal (read from the sources by the translator: Gen/ErrText.v) or format two integers; there is no failing step in the model, so to_string() / format!(\"{:?}\") of these values cannot panic on a writer error.  [err_dom which variant]: the selector names a value of an error type -- which 0 ParseError (variant = ParseErrorKind 0..6), 1 / 2 OutOfRange Display / Debug, 3 / 4 ParseMonthError, 5 / 6 ParseWeekdayError, 7 RoundingError (variant 0..2), 8 OutOfRangeError", [
+   ('C15_error_texts_total', 'error_texts_total', 'every value of every error type has a text: a non-empty well-formed string'),
+   ('C15_error_texts_domain', 'error_texts_domain', 'and no other selector has one'),
+   ('C15_isoweek_debug_total', 'isoweek_debug_total', 'format!(\"{:?}\", date.iso_week()) for every date (the ISO week exists: C15_fact_iso_week_total)'),
+   ('C15_wdset_debug_total', 'wdset_debug_total', 'Debug of WeekdaySet: the prefix, exactly seven binary digits, the suffix'),
+ ]),
  ("The format-string iterator NEVER TRAPS (dedicated proof, Proofs/C15Strftime.v: every slice of strftime.rs is taken at a character boundary of the well-formed input, the index arithmetic stays in usize, assert!(nextspec > 0) holds), strict or lenient, with or without the repair of error(); with C12's termination theorem: it yields a finite item list of at most 13 items per byte, and StrftimeItems::parse / parse_to_owned / count return", [
    ('C15_strftime_never_panics', 'strftime_never_panics', ''),
    ('C15_strftime_items_total', 'strftime_items_total', ''),
@@ -187,7 +193,7 @@ HEADER = '''(** C15 -- fallible operations fail by value, not by panic or hang.
     Which inventory entries (gen/C15_inventory.json, printed in the evidence) have such a theorem and
     which are covered by correspondence + judge only is listed at the end of this file. *)
 From Coq Require Import ZArith List Bool String.
-From V Require Import Base.Int Base.IO Spec.Gregorian Model.Strftime Proofs.C15 Proofs.C15Owners Proofs.C15Strftime Proofs.C15Wide Proofs.C15Text Proofs.C15Utf8 Proofs.C15SfItems Proofs.C15Deep Proofs.C15Format.
+From V Require Import Base.Int Base.IO Spec.Gregorian Model.Strftime Proofs.C15 Proofs.C15Owners Proofs.C15Strftime Proofs.C15Wide Proofs.C15Text Proofs.C15Utf8 Proofs.C15SfItems Proofs.C15Deep Proofs.C15Format Proofs.C15Errors.
 From V Require Model.Date Model.Time Model.DateTime Model.TimeDelta Model.DateExtra Model.Parsed Model.Parse Model.Rfc3339 Model.Show Model.Round Model.C02 Model.C15 Model.C19 Gen.Strftime
                Base.Utf8 Model.Scan Model.FromStr Model.Rfc2822 Model.Format Proofs.C12 Proofs.C13Total Proofs.C13Time Proofs.C14.
 Import ListNotations.
@@ -218,6 +224,8 @@ out.append(TAIL)
 if 'wide_hypotheses_inhabited' in L:
     out.append('(* ... and those of the full forms: [z_wide] = MAX_UTC\'s last second with a leap-second fraction seen from +02:00 (wall clock\n   one day outside the date range), [l_wide] = 2016-12-31T23:59:60.5 (Proofs/C15Text.v) *)')
     out.append('Example C15_wide_hypotheses_inhabited :\n  %s.\nProof. exact wide_hypotheses_inhabited. Qed.\nPrint Assumptions C15_wide_hypotheses_inhabited.\n' % L['wide_hypotheses_inhabited'][1])
+if 'errors_hypotheses_inhabited' in L:
+    out.append('Example C15_errors_hypotheses_inhabited :\n  %s.\nProof. exact errors_hypotheses_inhabited. Qed.\nPrint Assumptions C15_errors_hypotheses_inhabited.\n' % L['errors_hypotheses_inhabited'][1])
 if 'deep_hypotheses_inhabited' in L:
     out.append('(* ... and those of the text entry points (Proofs/C15Deep.v): [ex_fmt] = "%a, %d %b %Y %T %z \\u00e9", [ex_text] = "Tue, 01 Jul 2003 10:52:37 +0200 \\u00e9" *)')
     out.append('Example C15_deep_hypotheses_inhabited :\n  %s.\nProof. exact deep_hypotheses_inhabited. Qed.\nPrint Assumptions C15_deep_hypotheses_inhabited.\n' % L['deep_hypotheses_inhabited'][1])
